@@ -31,7 +31,7 @@ package chk
 //@ ensures[singleton] len(res) == 1 ==> (fatal <==> !wantMatches(res[0], want, opt))
 //@ loop 1 at "range res" invariant found <==> (exists i in 0..loopi :: wantMatches(res[i], want, opt))
 //@ loop 1 invariant !fatal && len(opts) == 2 && opts[0] == ignoreFieldsOpt(want.Details == nil, optIgnoreID(opt), !optServerErr(opt))
-//@ loop 2 at "range res" invariant !fatal && !found
+//@ loop 2 at "range res" invariant[lemma-message-loop] !fatal && !found
 //@ assigns fatal
 //@ props C17
 
